@@ -290,3 +290,18 @@ def to_tla(v):
             return '<<>>'
         return '[' + ', '.join('%s |-> %s' % (k, to_tla(x)) for k, x in v.items()) + ']'
     raise TypeError(type(v))
+
+
+def read_all_traces(text):
+    """TLC run with -continue: returns [(invariant_name, [(action, state)])]
+    for every reported invariant violation."""
+    out = []
+    parts = re.split(r'^Error: Invariant (\S+) is violated', text, flags=re.M)
+    # parts = [pre, name1, body1, name2, body2, ...]
+    for i in range(1, len(parts) - 1, 2):
+        name = parts[i]
+        body = parts[i + 1]
+        if body.lstrip().startswith('by the initial state'):
+            body = 'X is violated by the initial state:' + body.split(':', 1)[1]
+        out.append((name, read_trace_from_output(body)))
+    return out
